@@ -153,6 +153,13 @@ def check_live(c):
             if prev != new and new not in LEGAL.get(prev, set()):
                 raise Violation("illegal-transition", (str(prev), new, "live"), "order status went %s -> %s after %s" % (prev, new, op["op"]), c)
         transitions.clear()
+        for before, bet_id, async_ in d.accepted_during_flight:
+            if not async_:
+                raise Violation("two-operations-in-flight", ("live", "request-accepted-while-call-in-flight", str(before)),
+                                "a cancel was accepted on an order (%s, bet %s) whose own API call had not returned yet" % (before, bet_id), c)
+        if d.accepted_during_flight:
+            d.classes.add("async-order-request-during-placement-call")
+        d.accepted_during_flight.clear()
         m = d.lab.market(0)
         if m is None:
             return
